@@ -23,8 +23,8 @@ from checks import graphviews
 
 ID = "C14"
 LEVEL = "fault_enumeration"
-RULE = ("one run = one graph (type simple/digraph/dag/bipartite, 0..14 "
-        "vertices with sizes 9-11 over-represented, isolated vertices, empty "
+RULE = ("one run = one graph (type simple/digraph/dag/bipartite, 0..34 "
+        "vertices with sizes 9-11 over-represented, complete-graph objects, isolated vertices, empty "
         "and complete graphs), stored in one supported format (by name or "
         "stream, explicit format or extension), optionally damaged (stored "
         "bytes: 12 kinds incl. blank and comment lines; device: short reads, "
